@@ -411,15 +411,35 @@ import (
 	"io"
 	"runtime"
 	"testing"
+	"time"
 
 	"google.golang.org/grpc"
 	"google.golang.org/grpc/codes"
 	"google.golang.org/grpc/metadata"
 	"google.golang.org/grpc/status"
 	"google.golang.org/protobuf/types/known/emptypb"
+	"google.golang.org/protobuf/types/known/wrapperspb"
 )
 
+var _ = time.Second
+
 type zzResp struct{ emptypb.Empty }
+
+type zzBlockingCloner struct{ entered, release chan struct{} }
+
+func (c zzBlockingCloner) Copy(out, in interface{}) error {
+	if _, isReq := in.(*wrapperspb.StringValue); isReq {
+		if _, toHandler := out.(*wrapperspb.StringValue); toHandler {
+			select {
+			case c.entered <- struct{}{}:
+			default:
+			}
+			<-c.release
+		}
+	}
+	return ProtoCloner{}.Copy(out, in)
+}
+func (c zzBlockingCloner) Clone(in interface{}) (interface{}, error) { return ProtoCloner{}.Clone(in) }
 
 var zzSink int
 
@@ -469,6 +489,48 @@ func TestZZGovcReplay(t *testing.T) {
 			if status.Code(err) != want {
 				t.Errorf("GOVC-REPLAY: VIOLATED handler returned %%v; the caller got %%v (code %%v), want code %%v", ce, err, status.Code(err), want)
 			}
+		}
+	case "request-after-return":
+		// The handler starts to decode the request, the caller's context is cancelled
+		// while the (blocking) cloner is at work, Invoke returns Canceled, the caller
+		// reuses its request message; the cloner then copies what the caller wrote.
+		entered, release, seen := make(chan struct{}, 1), make(chan struct{}), make(chan string, 1)
+		ch := &Channel{}
+		ch.RegisterService(&grpc.ServiceDesc{
+			ServiceName: "svc",
+			HandlerType: (*interface{})(nil),
+			Methods: []grpc.MethodDesc{{MethodName: "M", Handler: func(srv interface{}, ctx context.Context, dec func(interface{}) error, _ grpc.UnaryServerInterceptor) (interface{}, error) {
+				var in wrapperspb.StringValue
+				if err := dec(&in); err != nil {
+					seen <- "decode error: " + err.Error()
+					return nil, err
+				}
+				seen <- in.Value
+				return &emptypb.Empty{}, nil
+			}}},
+		}, struct{}{})
+		ch.WithCloner(zzBlockingCloner{entered, release})
+		ctx, cancel := context.WithCancel(context.Background())
+		req := &wrapperspb.StringValue{Value: "original"}
+		go func() {
+			select {
+			case <-entered: // the handler has started to decode
+			case <-time.After(500 * time.Millisecond): // or the request never reaches a copy made after the call started
+			}
+			cancel()
+		}()
+		err := ch.Invoke(ctx, "/svc/M", req, &emptypb.Empty{})
+		if err == nil {
+			t.Logf("the call completed before it could be cancelled")
+		}
+		req.Value = "REUSED BY THE CALLER" // the call has returned: the caller owns req again
+		close(release)
+		select {
+		case v := <-seen:
+			if v == "REUSED BY THE CALLER" {
+				t.Fatalf("GOVC-REPLAY: VIOLATED the handler decoded the caller's request message after Invoke had returned (%%v): it saw %%q", err, v)
+			}
+		case <-time.After(2 * time.Second):
 		}
 	case "cancel-race":
 		// Schedules, not inputs: the caller's context is cancelled at an instant that
@@ -536,6 +598,8 @@ func init() {
 			scenario = "malformed"
 		case strings.Contains(rec.o.Name, "never_a_bare_context_error") || strings.Contains(rec.o.Name, "error_frame_is_translated"):
 			scenario = "handler-context-error"
+		case strings.Contains(rec.o.Name, "borrow:req"):
+			scenario = "request-after-return"
 		case strings.Contains(rec.o.Name, "never_a_bare_eof") || strings.Contains(rec.o.Name, "success_only_if_the_context_was_live"):
 			scenario = "cancel-race"
 		default:
